@@ -93,6 +93,13 @@ if accepted and balanced:
     B, ck = rsys.composition_balance_vectors()
     if list(ck) != keys or [list(row) for row in B] != [[c.get(k, 0) for c in comps] for k in keys]:
         print("composition_balance_vectors mismatch", B, ck); bad = True
+    try:
+        rsys.upper_conc_bounds([1, 2, 3], dtype=object)
+    except (ZeroDivisionError, ValueError):
+        pass
+    B3, ck3 = rsys.composition_balance_vectors()
+    if list(ck3) != keys or [list(row) for row in B3] != [[c.get(k, 0) for c in comps] for k in keys]:
+        print("composition_balance_vectors differs after a bounds query", B3, ck3); bad = True
     rs2 = ReactionSystem(rxns, [subs[2], subs[0], subs[1]])
     rs2.composition_balance_vectors()
     rs2.sort_substances_inplace()
@@ -165,7 +172,13 @@ def ob_admission(shape, presence, lo, hi, twin=False):
         rs2.sort_substances_inplace()
         B2b, ck2 = rs2.composition_balance_vectors()
         order2 = list(rs2.substances)
-        hist = (B2a, B2b, ck2, order2, rs2.net_stoichs())
+        # history: a bounds query in between must not change what the system reports about its substances
+        try:
+            rsys.upper_conc_bounds([1, 2, 3], dtype=object, min_=lambda xs: xs[0])
+        except (ZeroDivisionError, ValueError, IndexError):
+            pass
+        B3, ck3 = rsys.composition_balance_vectors()
+        hist = (B2a, B2b, ck2, order2, rs2.net_stoichs(), B3, ck3)
         return rsys, B, ck, N, rates, mv, hist
 
     def goal(p):
@@ -200,9 +213,12 @@ def ob_admission(shape, presence, lo, hi, twin=False):
                 pairs.append((sum(b * N[ri, i] for i, b in enumerate(row)), 0))
         for ri in range(len(rxs)):
             pairs.append((mv[ri], viol(ri, 0) if 0 in allkeys else 0))
-        B2a, B2b, ck2, order2, N2 = hist
-        if order2 != ["S0", "S1", "S2"] or list(ck2) != allkeys:
+        B2a, B2b, ck2, order2, N2, B3, ck3 = hist
+        if order2 != ["S0", "S1", "S2"] or list(ck2) != allkeys or list(ck3) != allkeys:
             return False
+        for row, k in zip(B3, ck3):
+            for i, b in enumerate(row):
+                pairs.append((b, comps[i].get(k, 0)))
         for row_a, row_b, k in zip(B2a, B2b, ck2):
             for j, i in enumerate((2, 0, 1)):
                 pairs.append((row_a[j], comps[i].get(k, 0)))
